@@ -106,6 +106,17 @@ impl Cmp {
     pub fn is_order(&self) -> bool {
         !matches!(self, Cmp::Eq | Cmp::Ne)
     }
+    /// the operator of the same comparison written with its operands swapped (`a < b` = `b > a`)
+    pub fn mirror(&self) -> Cmp {
+        match self {
+            Cmp::Eq => Cmp::Eq,
+            Cmp::Ne => Cmp::Ne,
+            Cmp::Lt => Cmp::Gt,
+            Cmp::Le => Cmp::Ge,
+            Cmp::Gt => Cmp::Lt,
+            Cmp::Ge => Cmp::Le,
+        }
+    }
 }
 
 /// arithmetic over numeric operands (variables or numeric tokens)
